@@ -232,3 +232,28 @@ pub fn hash_by_impl(parts: &[&[u8]]) -> u64 {
     parts.hash(&mut h);
     h.finish()
 }
+
+// ---- error discipline with a fallback: paths that are infeasible given the state of another Result
+pub fn open_with_fallback(p: &Path) -> io::Result<std::fs::File> {
+    let first = std::fs::OpenOptions::new().write(true).open(p);
+    if let Err(e) = &first {
+        if e.kind() == io::ErrorKind::PermissionDenied {
+            if let Ok(f) = std::fs::File::open(p) {
+                return Ok(f);
+            }
+        }
+    }
+    let f = first?;
+    Ok(f)
+}
+pub fn open_with_fallback_swallowing(p: &Path) -> io::Result<()> {
+    let first = std::fs::OpenOptions::new().write(true).open(p);
+    if first.is_err() {
+        if let Ok(_f) = std::fs::File::open(p) {
+            return Ok(());
+        }
+        return Ok(());
+    }
+    let _f = first?;
+    Ok(())
+}
